@@ -100,6 +100,9 @@ func Generate(rng *rand.Rand, i int, thorough bool) *p2prig.Scenario {
 	}
 	// peers
 	honest := p2prig.NodeSpec{Kind: "honest"}
+	if rng.Intn(4) == 0 {
+		honest.VersionLag = 1 + rng.Intn(5) // the honest peer finds blocks while the service syncs from it
+	}
 	linear := true
 	nPeers := 1
 	if s.Engine == "legacy" {
@@ -290,6 +293,9 @@ func Classify(s *p2prig.Scenario) string {
 		}
 		if n.DropAfterHeight > 0 {
 			k += "(drop-after-checkpoint-reply)"
+		}
+		if n.VersionLag > 0 {
+			k += "(grows-during-sync)"
 		}
 		if n.Silent {
 			k += "(stall)"
